@@ -10,7 +10,7 @@ import (
 	"verifharness/sx"
 )
 
-func bit(b bool) int {
+func csBit(b bool) int {
 	if b {
 		return 1
 	}
@@ -19,7 +19,7 @@ func bit(b bool) int {
 
 // parseEntry runs System.parse(str, allowInfinity) and renders the outcome as
 // ("ok" dump) | ("err" dump-or-(nil)) | ("panic").
-func parseEntry(sys semver.System, str string, allowInf bool) (out sx.V) {
+func csParseEntry(sys semver.System, str string, allowInf bool) (out sx.V) {
 	defer func() {
 		if r := recover(); r != nil {
 			out = sx.L(sx.Sym("panic"))
@@ -32,29 +32,29 @@ func parseEntry(sys semver.System, str string, allowInf bool) (out sx.V) {
 	return sx.L(sx.Sym("ok"), rawSx(semver.VerifDumpOpt(v)))
 }
 
-type probe struct {
+type csProbe struct {
 	v  *semver.Version
 	ok bool
 }
 
-func parseProbes(sys semver.System, l []sx.V) []probe {
-	out := make([]probe, len(l))
+func csParseProbes(sys semver.System, l []sx.V) []csProbe {
+	out := make([]csProbe, len(l))
 	for i, p := range l {
 		func() {
 			defer func() {
 				if r := recover(); r != nil {
-					out[i] = probe{nil, false}
+					out[i] = csProbe{nil, false}
 				}
 			}()
 			v, err := sys.Parse(p.Str())
-			out[i] = probe{v, err == nil}
+			out[i] = csProbe{v, err == nil}
 		}()
 	}
 	return out
 }
 
-func setInfo(s semver.Set) sx.V {
-	return sx.L(sx.Sym("ok"), sx.Int(bit(s.Empty())), sx.B(s.String()), rawSx(semver.VerifDumpSet(s)))
+func csSetInfo(s semver.Set) sx.V {
+	return sx.L(sx.Sym("ok"), sx.Int(csBit(s.Empty())), sx.B(s.String()), rawSx(semver.VerifDumpSet(s)))
 }
 
 func init() {
@@ -63,7 +63,7 @@ func init() {
 		sys := sysOf(a.Nth(0))
 		var out []sx.V
 		for _, e := range a.Nth(1).List() {
-			out = append(out, parseEntry(sys, e.Nth(1).Str(), e.Nth(0).Int() != 0))
+			out = append(out, csParseEntry(sys, e.Nth(1).Str(), e.Nth(0).Int() != 0))
 		}
 		return sx.L(out...)
 	})
@@ -89,7 +89,7 @@ func init() {
 		if err != nil {
 			return sx.L(sx.Sym("err"))
 		}
-		return sx.L(sx.Sym("ok"), sx.Int(bit(c.IsSimple())), sx.B(c.Set().String()), rawSx(semver.VerifDumpSet(c.Set())))
+		return sx.L(sx.Sym("ok"), sx.Int(csBit(c.IsSimple())), sx.B(c.Set().String()), rawSx(semver.VerifDumpSet(c.Set())))
 	})
 	// cmatch: (sys text (probe...) table) -> ("err") | ("ok" (("verr") | (MatchVersion MatchVersionPrerelease Set.MatchVersion))...)
 	register("cmatch", func(a sx.V) sx.V {
@@ -98,15 +98,15 @@ func init() {
 		if err != nil {
 			return sx.L(sx.Sym("err"))
 		}
-		ps := parseProbes(sys, a.Nth(2).List())
+		ps := csParseProbes(sys, a.Nth(2).List())
 		var rows []sx.V
 		for _, p := range ps {
 			if !p.ok {
 				rows = append(rows, sx.L(sx.Sym("verr")))
 				continue
 			}
-			rows = append(rows, sx.L(sx.Int(bit(c.MatchVersion(p.v))), sx.Int(bit(c.MatchVersionPrerelease(p.v))),
-				sx.Int(bit(c.Set().MatchVersion(p.v)))))
+			rows = append(rows, sx.L(sx.Int(csBit(c.MatchVersion(p.v))), sx.Int(csBit(c.MatchVersionPrerelease(p.v))),
+				sx.Int(csBit(c.Set().MatchVersion(p.v)))))
 		}
 		return sx.L(sx.Sym("ok"), sx.L(rows...))
 	})
@@ -152,7 +152,7 @@ func init() {
 			}
 			ops[k] = opres{x, err == nil}
 		}
-		ps := parseProbes(sys, a.Nth(3).List())
+		ps := csParseProbes(sys, a.Nth(3).List())
 		var rows []sx.V
 		for _, p := range ps {
 			if !p.ok {
@@ -160,22 +160,22 @@ func init() {
 				continue
 			}
 			row := []sx.V{
-				sx.Int(bit(sa.MatchVersion(p.v))), sx.Int(bit(semver.VerifSetMatch(sa, p.v, true))),
-				sx.Int(bit(sb.MatchVersion(p.v))), sx.Int(bit(semver.VerifSetMatch(sb, p.v, true))),
+				sx.Int(csBit(sa.MatchVersion(p.v))), sx.Int(csBit(semver.VerifSetMatch(sa, p.v, true))),
+				sx.Int(csBit(sb.MatchVersion(p.v))), sx.Int(csBit(semver.VerifSetMatch(sb, p.v, true))),
 			}
 			for k := 0; k < 4; k++ {
 				if !ops[k].ok {
 					row = append(row, sx.Int(-1), sx.Int(-1))
 					continue
 				}
-				row = append(row, sx.Int(bit(ops[k].s.MatchVersion(p.v))), sx.Int(bit(semver.VerifSetMatch(ops[k].s, p.v, true))))
+				row = append(row, sx.Int(csBit(ops[k].s.MatchVersion(p.v))), sx.Int(csBit(semver.VerifSetMatch(ops[k].s, p.v, true))))
 			}
 			rows = append(rows, sx.L(row...))
 		}
-		out := []sx.V{sx.Sym("ok"), setInfo(sa), setInfo(sb)}
+		out := []sx.V{sx.Sym("ok"), csSetInfo(sa), csSetInfo(sb)}
 		for k := 0; k < 4; k++ {
 			if ops[k].ok {
-				out = append(out, setInfo(ops[k].s))
+				out = append(out, csSetInfo(ops[k].s))
 			} else {
 				out = append(out, sx.L(sx.Sym("err")))
 			}
@@ -198,9 +198,9 @@ func init() {
 		if err2 != nil {
 			r = sx.L(sx.Sym("err"))
 		} else {
-			r = sx.L(sx.Sym("ok"), sx.B(c2.Set().String()), sx.Int(bit(c2.IsSimple())), rawSx(semver.VerifDumpSet(c2.Set())))
+			r = sx.L(sx.Sym("ok"), sx.B(c2.Set().String()), sx.Int(csBit(c2.IsSimple())), rawSx(semver.VerifDumpSet(c2.Set())))
 		}
-		ps := parseProbes(sys, a.Nth(2).List())
+		ps := csParseProbes(sys, a.Nth(2).List())
 		var rows []sx.V
 		for _, p := range ps {
 			if !p.ok {
@@ -209,10 +209,10 @@ func init() {
 			}
 			ri, re := -1, -1
 			if err2 == nil {
-				ri = bit(c2.MatchVersionPrerelease(p.v))
-				re = bit(c2.MatchVersion(p.v))
+				ri = csBit(c2.MatchVersionPrerelease(p.v))
+				re = csBit(c2.MatchVersion(p.v))
 			}
-			rows = append(rows, sx.L(sx.Int(bit(c.MatchVersionPrerelease(p.v))), sx.Int(ri), sx.Int(bit(c.MatchVersion(p.v))), sx.Int(re)))
+			rows = append(rows, sx.L(sx.Int(csBit(c.MatchVersionPrerelease(p.v))), sx.Int(ri), sx.Int(csBit(c.MatchVersion(p.v))), sx.Int(re)))
 		}
 		return sx.L(sx.Sym("ok"), sx.B(s1), r, sx.L(rows...))
 	})
